@@ -56,7 +56,10 @@ def main(tier):
     # random long names
     for _ in range(400 if thorough else 60):
         rid += 1
-        mkname = lambda: b"/" + b"/".join(bytes(rng.choice([rng.randrange(1, 256), rng.choice(b" \t\n'\"\\$#*~")]) for _ in range(rng.randint(1, 30))).replace(b"/", b"_").replace(b"\0", b"_") for _ in range(rng.randint(1, 3)))
+        # components "." and ".." are not generated: a report never contains them (paths are normalised by the walk)
+        comp = lambda: (lambda c: b"_" + c if c in (b".", b"..") else c)(
+            bytes(rng.choice([rng.randrange(1, 256), rng.choice(b" \t\n'\"\\$#*~")]) for _ in range(rng.randint(1, 30))).replace(b"/", b"_").replace(b"\0", b"_"))
+        mkname = lambda: b"/" + b"/".join(comp() for _ in range(rng.randint(1, 3)))
         cases.append(mk_report(rid, rng.choice(["text", "json"]), [[mkname() for _ in range(rng.randint(2, 4))] for _ in range(rng.randint(1, 3))],
                                [b"fclones", b"group"] + [mkname()[1:] for _ in range(rng.randint(0, 3))], mkname()))
     # truncation: every byte prefix of a few reports
